@@ -97,6 +97,22 @@ def _missing_meets_mismatch(items):
             lens.add(len(r.v))
     if len(lens) > 1:
         raise NoOpinion("a missing value meets lists of different lengths at the same position")
+    # ... or anywhere below that position in the arguments that are present
+    rest = []
+    for it in items:
+        if it.scalar:
+            rest.append(it)
+            continue
+        try:
+            if _resolve(it) is not None:
+                rest.append(it)
+        except NoOpinion:
+            continue
+    if sum(1 for it in rest if not it.scalar) >= 2:
+        try:
+            combine(rest, lambda vals: (None,))
+        except Refuse:
+            raise NoOpinion("a missing value meets lists of different lengths below the same position")
 
 
 def combine(items, leaf):
